@@ -33,7 +33,8 @@ PROP = {
                   "one declared method) -- without ever running a state-changing handler; read-only endpoints answer "
                   "200; public routes are reachable; first-run routes answer 403 to everybody after installation; a "
                   "logged-out cookie is dead. TestVFC11RouteCoverage fails if a route literal in a registration call "
-                  "anywhere under internal/ is unknown to the assembled mux.",
+                  "anywhere under internal/ is unknown to the assembled mux."
+                  " Bad credentials include accounts without a usable password hash (none, plaintext, md5crypt, truncated bcrypt); the authentication module is restarted on its session database after a logout; the part 'shutdown' runs the production cleanup() with open connections and sends unauthenticated requests while the servers drain.",
     "level_note": "Most requests are served in-process through mux.ServeHTTP; TestVFC11RawRequestLine writes raw "
                   "request lines (percent-encoded dot segments, letters and slashes, absolute-form and network-path "
                   "targets, path parameters, backslashes, HTTP/1.0 without Host) to a loopback net/http server with "
